@@ -8,8 +8,11 @@ WEAVE = [dict(file='src/fiber_context.c', fns=FNS, cflags=['-DFIBER_STACK_MALLOC
 GROUPS = [
     dict(name='init_malloc', tu='context.c', harness='h_init', mode='H', stack='-DFIBER_STACK_MALLOC', functions=['fiber_context_init', 'fiber_context_destroy'], bounded=True, unwind=2,
          bound='stack sizes 1024..1039 (every residue mod 16), every malloc alignment; the arithmetic lemma covers all sizes and base addresses', timeout=600),
-    dict(name='init_mmap', tu='context.c', harness='h_init', mode='H', stack='-DFIBER_STACK_MMAP', functions=['fiber_context_init', 'fiber_context_destroy'], bounded=True, unwind=2,
-         bound='stack sizes 1024..1039, page size 256 (the stack object must stay small for the solver); the sizing arithmetic for page size 4096 is lemma_page_rounding', timeout=600),
+] + [
+    dict(name='init_mmap_%d' % sz, tu='context.c', harness='h_init', mode='H', stack='-DFIBER_STACK_MMAP', defs=['-DVSZ=%d' % sz], functions=['fiber_context_init', 'fiber_context_destroy'], bounded=True, unwind=2,
+         bound='stack size %d (%d pages), page size 256 (the stack object must stay small for the solver); the sizing arithmetic for page size 4096 is lemma_page_rounding' % (sz, pages), timeout=900, thorough_only=(sz == 1024))
+    for sz, pages in ((1024, 5), (1039, 6))
+] + [
     dict(name='thread_context', tu='context.c', harness='h_thread_context', mode='H', stack='-DFIBER_STACK_MALLOC', functions=['fiber_context_init_from_thread', 'fiber_context_destroy'], unwind=2, exact_unwind=True),
     dict(name='create', tu='create.c', harness='h_create', mode='H', stack='-DFIBER_STACK_MALLOC', functions=['fiber_create_no_sched'], unwind=2, exact_unwind=True),
     dict(name='create_from_thread', tu='create.c', harness='h_create_from_thread', mode='H', stack='-DFIBER_STACK_MALLOC', functions=['fiber_create_from_thread'], unwind=2, exact_unwind=True),
